@@ -1,6 +1,7 @@
 import Driver.Proto
 import Gql.Validation.Framework
 import Gql.Validation.Context
+import Gql.Validation.Rules
 import Gql.Generated.ValidationTables
 /-!
 Line protocol of the C12 driver.
@@ -16,6 +17,10 @@ Line protocol of the C12 driver.
         (d* = depths of the TypeInfo stacks, in the order of `Generated.tiStackNames`)
 
   `memo <nfrag> <req>*` — the context-cache model on a fixed small pure instance (see `memoStep`).
+
+  `rules <max|inf> <Rule1,Rule2+Rule3+…> <atree>` — the modelled concrete rules (`Gql.Validation.Rules`) through the
+     model's `validate`; atree `( kind field value child* )` (`-` = empty), node ids = preorder numbers from 0
+  out   `Rule:name:id.id.… … [A]|u b`   (errors in order; `u` = identities unique)
 -/
 open Gql Gql.Validation Driver
 
@@ -151,8 +156,44 @@ def parseReqs : List String → Option (List Context.Req)
     | _, _ => none
   | _ => none
 
+
+/-! the modelled concrete rules -/
+open Gql.Validation.Rules in
+partial def parseATrees (ws : List String) (next : Nat) : Option (List ATree × List String × Nat) :=
+  match ws with
+  | "(" :: k :: f :: v :: rest =>
+    match parseATrees rest (next + 1) with
+    | some (cs, ")" :: rest', n') =>
+      match parseATrees rest' n' with
+      | some (sibs, rest'', n'') =>
+        some (ATree.node ⟨next, k⟩ (if f == "-" then "" else f) (if v == "-" then "" else v) cs :: sibs, rest'', n'')
+      | none => none
+    | _ => none
+  | _ => some ([], ws, next)
+
+open Gql.Validation.Rules in
+def showRErr (e : RErr) : String :=
+  s!"{e.rule}:{e.name}:" ++ ".".intercalate (e.nodes.map toString)
+
+open Gql.Validation.Rules in
+def runRules (max : Option Nat) (names : List String) (doc : ATree) : String :=
+  let found := names.map (fun n => ((modelled (τ := Nat) doc).find? (fun r => r.1 == n)).map (·.2))
+  if found.any (·.isNone) then "bad-rule"
+  else
+    let rules : List (CRule Nat × RS) := found.filterMap (fun r => r.map (fun x => (x, RS.init)))
+    let res := validate Generated.tiTable lookups max rules doc.erase
+    " ".intercalate (res.map (fun r => match r with | .error e => showRErr e | .aborted => "A"))
+      ++ "|u " ++ (if doc.ids.eraseDups.length == doc.ids.length then "1" else "0")
+
 def step (line : String) : String :=
   match words line with
+  | "rules" :: mx :: names :: rest =>
+    let max : Option (Option Nat) := if mx == "inf" then some none else mx.toNat?.map some
+    match max, parseATrees rest 0 with
+    | some max, some ([t], [], _) =>
+      -- `+` separates independent `validate` runs, `,` the rules of one run; `0` = the empty rule list
+      " || ".intercalate ((names.splitOn "+").map (fun g => runRules max ((g.splitOn ",").filter (fun w => w ≠ "" && w ≠ "0")) t))
+    | _, _ => "bad-op"
   | "memo" :: nf :: rest =>
     match nf.toNat?, parseReqs rest with
     | some nf, some reqs =>
